@@ -61,6 +61,17 @@ def gen(ctx, rng):
             y = np.round(np.repeat(rng.normal(2000, 900, n // 12 + 1), 12)[:n] + rng.normal(0, 40, n))
         cases.append(dict(kind="wcvp", y=[float(v) for v in y], nodata=-3000.0, llas=[float(v) for v in np.arange(-1.0, 1.6, 0.5)],
                           robust=bool(it % 4 < 2), n=n, miss=0, degenerate=False, p=float(rng.choice([0.99999, 0.9999, 0.999, 0.00001]))))
+    # robust fits of noisy series whose missing cells are marked NaN / +inf / -inf (a non-finite residual must not reach the weights)
+    for it in range(24 if ctx.thorough else 8):
+        n = int(rng.integers(12, 60))
+        y = np.clip(gen_series(rng, n, negative_ok=False), -9000, 9000)
+        y[rng.choice(n, size=2, replace=False)] -= float(rng.integers(800, 2500))          # outliers below the curve
+        miss = np.zeros(n, dtype=bool)
+        miss[rng.choice(n, size=max(1, n // 6), replace=False)] = True
+        mark = [None, float("inf"), float("-inf"), None][it % 4]
+        cases.append(dict(kind="wcv" if it % 2 == 0 else "wcvp", y=[mark if m else float(v) for v, m in zip(y, miss)], nodata=-3000.0,
+                          llas=[float(v) for v in np.arange(-1.0, 2.6, 0.5)], robust=True, n=n, miss=int(miss.sum()), degenerate=False,
+                          p=None if it % 2 == 0 else 0.9))
     # short series with one spike: most residuals nearly equal, the robust scale collapses (the reweighting must not switch
     # all but one cell off)
     for it in range(90 if ctx.thorough else 30):
